@@ -3,6 +3,7 @@ import EinoV.Model.C10
 import EinoV.Model.C10Runs
 import EinoV.Model.C10Share
 import EinoV.Model.C10Builtin
+import EinoV.Model.C10Detach
 import EinoV.Expected.C10
 
 namespace EinoV.Oracle.C10
@@ -208,6 +209,41 @@ def handleBuiltin (c : Json) : JE Json := do
   pure <| Json.mkObj [("outcome", Json.str (if sh.fails bf then "error" else "ok")),
                       ("units", J.mkArr js), ("cbsLen", (cbs.2.len : Json)), ("cbsCap", (cbs.2.cap : Json))]
 
+/-! ### detach: work user code inside a node detaches from the run's callback context
+    (Model/C10Detach.lean) -/
+
+def parseDOp (j : Json) : JE DOp := do
+  match (← J.str j "op") with
+  | "init0" => pure .init0
+  | "initH" => pure (.initH (← parseHds j "hs"))
+  | "reuse" => pure .reuse
+  | s => throw s!"bad context op {s}"
+
+def parseDWork (j : Json) : JE DWork := do
+  let ops ← (J.arrD j "ops").mapM parseDOp
+  let inner ← match (← J.str j "inner") with
+    | "graph" => pure (DInner.graph (← parseHds j "innerOpts") (J.boolD j "innerFails" false))
+    | _ => pure (DInner.fire (J.boolD j "innerFails" false))
+  pure ⟨ops, inner⟩
+
+def parseDNode (j : Json) : JE DNode := do
+  pure ⟨← J.str j "key", J.boolD j "fail" false, ← (J.arrD j "work").mapM parseDWork⟩
+
+def handleDetach (c : Json) : JE Json := do
+  let sh : DShape := ⟨(← J.str c "paradigm") != "invoke", ← (J.arrD c "nodes").mapM parseDNode⟩
+  let userInit ← parseUserInit c
+  let opts ← (J.arrD c "opts").mapM parseOpt
+  let P := detProg Expected.C10.cfacts (← parseHds c "globals") userInit opts sh
+  let st := run Expected.C10.facts P (seqSchedule P)
+  let skip := if userInit.isSome then 1 else 0
+  let js := (List.range P.units.length).drop skip |>.map fun i =>
+    Json.mkObj [("info", Json.str (unitInfo P i)),
+                ("ev", J.mkArr ((projLog st.log i).map evJson)),
+                ("handlers", match handlersFor st i with | some l => hdIds l | none => Json.null)]
+  let cbs := buildCbs opts
+  pure <| Json.mkObj [("outcome", Json.str (if sh.fails then "error" else "ok")),
+                      ("units", J.mkArr js), ("cbsLen", (cbs.2.len : Json)), ("cbsCap", (cbs.2.cap : Json))]
+
 def parseSlice (j : Json) : JE Slice := do
   match (← J.asArr j) with
   | [a, o, l, c] => pure ⟨← J.asNat a, ← J.asNat o, ← J.asNat l, ← J.asNat c⟩
@@ -267,6 +303,7 @@ def handle (c : Json) : JE Json := do
   | "runs" => handleRuns c
   | "share" => handleShare c
   | "builtin" => handleBuiltin c
+  | "detach" => handleDetach c
   | _ => handleCompose c
 
 end EinoV.Oracle.C10
